@@ -10,23 +10,30 @@ RULE = ("one seeded library of 23 rows (real kernel, 7 epochs): marginal_ln_like
         "n_batches in {1..26}, SerialPool and MultiPool(2); the same TheJoker reused after rejection sampling / posterior draws in between "
         "(call history); rejection_sample accepted set for equal seeds across paths; non-trivial = n_batches > 1")
 EXHAUSTIVE = False
-BOUNDED = ["MultiPool process isolation and pickling are exercised only on this one library"]
+BOUNDED = ["MultiPool process isolation and pickling are exercised only on this one library, and only when the compiled kernel is in sync with the "
+           ".pyx (the interpreted kernel that stands in for a stale binary cannot be pickled)"]
 BUDGET_S = {"quick": 50, "thorough": 600}
 _st = {}
 
 
+KERNEL_IN_SYNC = None
+
+
 def setup():
-    pass
+    # when the compiled extension is stale w.r.t. the .pyx, the current kernel SOURCE is what has to be exercised (interpreted; not picklable,
+    # so the MultiPool cases then run only where no helper crosses a process boundary - see BOUNDED)
+    global KERNEL_IN_SYNC
+    KERNEL_IN_SYNC = S.install_kernel()
 
 
 def _ctx(seed):
     if seed in _st:
         return _st[seed]
     from thejoker import TheJoker
-    prior = S.default_prior()
+    prior = S.default_prior(s=True)        # a sampled jitter: every row of a batch has its own weights
     data = S.make_data(7, seed)
     lib = prior.sample(size=23, rng=np.random.default_rng(seed), return_logprobs=True)
-    path = os.path.join(S.OUTDIR, f"c05_lib_{os.getpid()}.hdf5")
+    path = os.path.join(S.OUTDIR, f"c05_lib_{os.getpid()}_{seed}.hdf5")
     if os.path.exists(path):
         os.unlink(path)
     lib.write(path)
@@ -40,7 +47,7 @@ def cases(tier, seed):
     for nb in list(range(1, 27)):
         for src in ("object", "file"):
             yield f"ll/{src}/{nb}/serial", {"kind": "ll", "src": src, "nb": nb, "pool": "serial", "seed": sd}
-    for nb in (2, 3, 24):
+    for nb in ((2, 3, 24) if S.kernel_in_sync() else ()):
         yield f"ll/file/{nb}/multi", {"kind": "ll", "src": "file", "nb": nb, "pool": "multi", "seed": sd}
     for k in range(4):
         yield f"idx/{k}", {"kind": "idx", "k": k, "seed": sd}
